@@ -217,6 +217,77 @@ def check_single(case):
     return {"nontrivial": True, "labels": sorted(outs) + [case["call"].split("/")[0]], "count": {"calls": n}}
 
 
+# ---- numeric fields: complete product over numeric kinds ----------------------------------------------------------------
+
+NUMS = [1, 2, 3, 0, -1, True, False, 2.0, 3.0, 1.5, 1e300, float("inf"), float("-inf"), float("nan"), 2 ** 63, 10 ** 400, -(10 ** 400),
+        10 ** 30, 1e22, "2", None]
+
+
+def enum_numeric(tier):
+    for i in range(len(NUMS)):
+        for j in range(len(NUMS)):
+            yield {"i": i, "j": j}
+
+
+def check_numeric(case):
+    """verify_root with every pair of numeric kinds as (trusted version, offered version), verify_root / verify_delegation
+    with every pair as (threshold in the trusted root rule, threshold in the offered root rule), verify_signable thresholds."""
+    a, b = NUMS[case["i"]], NUMS[case["j"]]
+    outs = set()
+    f = fx()
+    T, N = f["T"], f["N"]
+    T["signed"]["version"], N["signed"]["version"] = a, b
+    outs.add(guarded("verify_root[versions %r, %r]" % (a, b), A.verify_root, (T, N)))
+    f = fx()
+    T, N = f["T"], f["N"]
+    T["signed"]["delegations"]["root"]["threshold"], N["signed"]["delegations"]["root"]["threshold"] = a, b
+    outs.add(guarded("verify_root[root thresholds %r, %r]" % (a, b), A.verify_root, (T, N)))
+    outs.add(guarded("verify_delegation[threshold %r]" % (a,), A.verify_delegation, ("root", N, T), {"gpg": True}))
+    f = fx()
+    outs.add(guarded("verify_signable[threshold %r]" % (a,), A.verify_signable, (f["P"], f["pubs"][:2], a)))
+    f = fx()
+    K = f["K"]
+    K["signed"]["version"] = a
+    K["signed"]["delegations"]["pkg_mgr"]["threshold"] = b
+    outs.add(guarded("verify_delegation[key_mgr version %r, pkg_mgr threshold %r]" % (a, b), A.verify_delegation, ("pkg_mgr", f["P"], K)))
+    outs.add(guarded("checkformat_delegating_metadata", C.checkformat_delegating_metadata, (K,)))
+    return {"nontrivial": True, "labels": sorted("out=" + o for o in outs), "count": {"calls": 6}}
+
+
+# ---- histories: the same argument object changed in place between two calls -------------------------------------------
+
+def check_inplace(case):
+    calls = _calls()
+    f, args, fam = calls[case["call"]]
+    structured = [i for i, (n, a) in enumerate(args) if isinstance(a, dict)]
+    if not structured:
+        return {"nontrivial": False, "labels": ["no-structured-arg"]}
+    i = structured[case["pos"] % len(structured)]
+    vals = [a for _, a in args]
+    o1 = guarded(case["call"], f, vals, family=fam)          # valid arguments first
+    doc = vals[i]
+    ps = list(G.paths(doc))
+    m = case["muts"][0]
+    mut = {"path": list(ps[m["p"] % len(ps)]), "op": MU.OPS[m["o"] % len(MU.OPS)]}
+    r = MU.apply(doc, mut)
+    if r is MU.INAPPLICABLE:
+        mut = {"path": mut["path"], "op": "replace:%d" % (m["o"] % len(MU.REPLACEMENTS))}
+        r = MU.apply(doc, mut)
+    if not isinstance(r, dict):
+        return {"nontrivial": False, "labels": ["root-replaced"]}
+    doc.clear()
+    doc.update(r)                                             # the SAME object, now mutated
+    o2 = guarded("%s[second call; the SAME %s object was changed in place by %s after a first, valid call]"
+                 % (case["call"], args[i][0], mut), f, vals, family=fam)
+    fresh = [a for _, a in _calls()[case["call"]][1]]
+    fresh[i] = copy.deepcopy(r)
+    o3 = guarded(case["call"] + "[fresh equal copy]", f, fresh, family=fam)
+    if o2 != o3:
+        raise Violation("%s: an argument changed in place after an earlier call gives %s, an equal fresh copy gives %s (%s)"
+                        % (case["call"], o2, o3, mut), bucket="verdict depends on object identity/history")
+    return {"nontrivial": True, "labels": [case["call"].split("/")[0], "arg=" + args[i][0], "second=" + o2]}
+
+
 # ---- error-class mapping -------------------------------------------------------------------------------------------------
 
 def check_mapping_root(case):
@@ -272,6 +343,11 @@ UNITS = [
         doc="each verifier, each structured argument, 1-2 path mutations"),
     Unit("single", check_single, enumerate=enum_single, exhaustive=True, shards_quick=16,
          doc="complete single-mutation neighbourhood of every structured argument of the 8 reference calls"),
+    Unit("numeric", check_numeric, enumerate=enum_numeric, exhaustive=True, shards_quick=8,
+         doc="complete product of 21 numeric kinds x 21 for version/version and threshold/threshold pairs"),
+    Unit("inplace", check_inplace, strategy=lambda: st.fixed_dictionaries(
+        {"call": st.sampled_from(CALL_NAMES[:6]), "pos": st.integers(0, 3), "muts": _muts}), quick=1500, thorough=50000,
+        doc="valid call, then the same argument object mutated in place, then the call again: family, and same outcome as a fresh copy"),
     Unit("map_root", check_mapping_root, strategy=C03.root_pairs, quick=600, thorough=20000,
          doc="verify_root error class == documented class for the failing conjunct"),
     Unit("map_delegation", check_mapping_delegation, strategy=gen_deleg.delegation_cases, quick=600, thorough=20000,
